@@ -453,7 +453,7 @@ class ConnectAsync(ConnectOne):
     = input_delays'[src] = connect_interval(src group, dest group) -- the zero delay of that shape, which is
     not greater than any delay already recorded for the pair (so overwriting input_delays keeps the minimum)"""
     target = WORLD + ".connect_async_requests"
-    property_ids = ["C16", "C10"]
+    property_ids = ["C16", "C10", "C01"]
     variants = [{}]
     shard_variants = False
 
